@@ -395,10 +395,110 @@ func mkCases(tier string) []caseDef {
 		cs := append(mkCasesFor(fullAlphabet(), 3, "full alphabet"), mkCasesFor(smallAlphabet(), 4, "reduced alphabet")...)
 		cs = append(cs, deeperCases(fullAlphabet(), 3, "full alphabet")...)
 		cs = append(cs, mkCasesFor(zeroAlphabet(), 3, "zero-value alphabet")...)
+		cs = append(cs, ifaceCase())
 		return append(cs, deeperCases(smallAlphabet(), 4, "reduced alphabet")...)
 	}
 	cs := append(mkCasesFor(al, depth, "full alphabet"), deeperCases(al, 3, "full alphabet")...)
-	return append(cs, mkCasesFor(zeroAlphabet(), 3, "zero-value alphabet")...)
+	return append(append(cs, mkCasesFor(zeroAlphabet(), 3, "zero-value alphabet")...), ifaceCase())
+}
+
+// ifaceCase: mappings into an interface type whose results include the nil interface value - an element like any other.
+func ifaceCase() caseDef {
+	return caseDef{"mappings into an interface type (any, error) with nil results", func(c *checker, _ time.Time) {
+		toAny := func(x int) any {
+			if x%2 == 0 {
+				return nil
+			}
+			return x
+		}
+		toErr := func(x int) error {
+			if x%2 == 1 {
+				return nil
+			}
+			return fmt.Errorf("e%d", x)
+		}
+		drain := func(s seq.Seq[any]) []any {
+			out := []any{}
+			for has := s != nil; has; has = s.Next() {
+				out = append(out, s.Value())
+			}
+			return out
+		}
+		fail := func(what string, got, want any) {
+			if len(c.r.Viols) < 3 {
+				c.r.Viols = append(c.r.Viols, drv.Viol{Sig: "C14/interface-values", Msg: fmt.Sprintf("%s = %v, the list functions give %v", what, got, want), Replay: map[string]any{"expr": what}})
+			}
+		}
+		for _, xs := range [][]int{{}, {1}, {2}, {1, 2}, {2, 1}, {2, 4}, {1, 2, 3, 4}, {2, 2, 1}} {
+			c.r.Evaluations++
+			src := func() seq.Seq[int] { return seq.FromSlice(append([]int{}, xs...)) }
+			var img []any
+			var errs []any
+			for _, x := range xs {
+				img = append(img, toAny(x))
+				errs = append(errs, toErr(x))
+			}
+			if img == nil {
+				img, errs = []any{}, []any{}
+			}
+			name := fmt.Sprintf("Map(FromSlice(%v), x -> nil if x is even else x)", xs)
+			if got := drain(seq.Map(src(), toAny)); fmt.Sprint(got) != fmt.Sprint(img) {
+				fail(name, got, img)
+			}
+			var ge []any
+			me := seq.Map(src(), toErr)
+			for has := me != nil; has; has = me.Next() {
+				ge = append(ge, me.Value())
+			}
+			if fmt.Sprint(ge) != fmt.Sprint(errs) && len(xs) > 0 {
+				fail(fmt.Sprintf("Map(FromSlice(%v), x -> nil error if x is odd)", xs), ge, errs)
+			}
+			isNil := func(v any) bool { return v == nil }
+			var keep, tw, dw []any
+			for _, v := range img {
+				if v == nil {
+					keep = append(keep, v)
+				}
+			}
+			i := 0
+			for i < len(img) && img[i] == nil {
+				tw = append(tw, img[i])
+				i++
+			}
+			dw = append(dw, img[i:]...)
+			for what, pair := range map[string][2]any{
+				"Filter(" + name + ", is nil)":    {drain(seq.Filter(seq.Map(src(), toAny), isNil)), append([]any{}, keep...)},
+				"TakeWhile(" + name + ", is nil)": {drain(seq.TakeWhile(seq.Map(src(), toAny), isNil)), append([]any{}, tw...)},
+				"DropWhile(" + name + ", is nil)": {drain(seq.DropWhile(seq.Map(src(), toAny), isNil)), append([]any{}, dw...)},
+				"Plus(" + name + ", the same)":    {drain(seq.Plus(seq.Map(src(), toAny), seq.Map(src(), toAny))), append(append([]any{}, img...), img...)},
+				"Map(" + name + ", identity)":     {drain(seq.Map(seq.Map(src(), toAny), func(v any) any { return v })), img},
+			} {
+				if fmt.Sprint(pair[0]) != fmt.Sprint(pair[1]) {
+					fail(what, pair[0], pair[1])
+				}
+			}
+			var joined []any
+			for _, x := range xs {
+				joined = append(joined, toAny(x), toAny(x+1))
+			}
+			if joined == nil {
+				joined = []any{}
+			}
+			if got := drain(seq.Join(src(), func(x int) seq.Seq[any] { return seq.Map(seq.FromSlice([]int{x, x + 1}), toAny) })); fmt.Sprint(got) != fmt.Sprint(joined) {
+				fail(fmt.Sprintf("Join(FromSlice(%v), x -> Map([x x+1], nil if even))", xs), got, joined)
+			}
+			var seen []any
+			seq.ForEach(seq.Map(src(), toAny), func(v any) error { seen = append(seen, v); return nil })
+			if fmt.Sprint(seen) != fmt.Sprint(img) && len(xs) > 0 {
+				fail("ForEach over "+name, seen, img)
+			}
+			c.r.States += len(xs) + 1
+			c.r.Transitions += 8 * len(xs)
+			if len(xs) >= 2 {
+				c.r.Nontrivial++
+			}
+		}
+	}}
 }
 
 func mkCasesFor(al alphabet, depth int, tag string) []caseDef {
